@@ -52,4 +52,96 @@ def c06(tier, seed):
         exhaustive=True)
 
 
-CHECKS = {'C05': c05, 'C06': c06}
+
+def disp_stage(fam, name=None):
+    return Stage(name or ('dispatch_' + fam), mc=('Disp_' + fam, 'Disp_%s.cfg' % fam), emit=('Disp_' + fam, 'Disp_%s_emit.cfg' % fam),
+                 driver='dispatcher', trace=('DispatcherTrace', 'DispatcherTrace.cfg'),
+                 nontrivial=lambda tr: len(tr['ev']) >= 2)
+
+
+ASSUME_DISP = ASSUME_COMMON + [
+    'registered methods return JSON-encodable values and the instrumented middlewares / error handlers do not raise '
+    '(the proviso of C01)',
+    'a 5000-digit integer literal and max_batch_size=0 are explicit don\'t-care regions of the specification '
+    '(any well-formed -32700/-32600/-32603 reply with id null; no-limit or reject)',
+    'message and data of library-generated errors are not fixed by the statements: any string / anything is accepted',
+]
+
+
+def c01(tier, seed):
+    t = 'quick' if tier == 'quick' else 'thorough'
+    return dict(stages=[disp_stage('c01_' + t), disp_stage('c03')],
+                rule='single request objects over the full product of member alphabets (jsonrpc x id x method x params), '
+                     'non-object JSON values, non-JSON text classes, 5000-digit literals, batches of <= %d elements over a '
+                     '12-element alphabet x {sync, async+coroutines, async+plain functions} x max_batch_size {unset,0,1,2}; '
+                     'non-trivial = a method, middleware or handler ran before the reply (>= 2 events)' % (2 if tier == 'quick' else 3),
+                assumptions=ASSUME_DISP, exhaustive=True)
+
+
+def c02(tier, seed):
+    t = 'quick' if tier == 'quick' else 'thorough'
+    return dict(stages=[disp_stage('c02_' + t)],
+                rule='all single requests and all batches of length 1..2 over 6 element kinds x 8 id typings (48 elements), '
+                     'length 3%s over reduced alphabets, x max_batch_size at and around the length x 3 dispatcher flavours; '
+                     'non-trivial = at least one method executed' % ('' if tier == 'quick' else ' and 4'),
+                assumptions=ASSUME_DISP, exhaustive=True)
+
+
+def c03(tier, seed):
+    t = 'quick' if tier == 'quick' else 'thorough'
+    return dict(stages=[disp_stage('c03'), disp_stage('c01_' + t)],
+                rule='protocol errors over 7 codes x 3 messages x 8 data shapes and 8 exception types, each as call, as '
+                     'notification and inside batches, plus every rejection class; and the C01 corpus; non-trivial = a method ran',
+                assumptions=ASSUME_DISP + ['"nothing about the exception appears" is observed as: neither the marker '
+                                           'string put into the exception, nor any exception type name, occurs in the response text'],
+                exhaustive=True)
+
+
+def c12(tier, seed):
+    t = 'quick' if tier == 'quick' else 'thorough'
+    return dict(stages=[disp_stage('c12_' + t)],
+                rule='all middleware stacks of length 0..%s over {pass, short, rewriteReq, rewriteResp} x 9 error-handler '
+                     'tables x 12 request kinds x {sync, async}; non-trivial = a middleware or handler event was recorded'
+                     % ('2 (+ length 3 on a reduced product)' if tier == 'quick' else '3'),
+                assumptions=ASSUME_DISP, exhaustive=True)
+
+
+
+def c04(tier, seed):
+    t = 'quick' if tier == 'quick' else 'thorough'
+    return dict(
+        stages=[Stage('binding', mc=('BindingMC', 'Binding_%s.cfg' % t), emit=('BindingMC', 'Binding_%s_emit.cfg' % t),
+                      driver='binding', trace=('BindingTrace', 'BindingTrace.cfg'),
+                      deviations={'KwRebind': 'BindingTrace_dev_KwRebind.cfg'}, sanity_events=('Direct',),
+                      nontrivial=lambda tr: any(e['ev'] == 'Exec' for e in tr['ev']))],
+        rule='all grammatical Python signatures of <= %d parameters over positional-only / positional-or-keyword / '
+             '*args / keyword-only / **kwargs x defaults x context designation (none, by name at each admissible '
+             'position, first positional, view constructor) x function / coroutine / view method x positional lists of '
+             'length 0..%d and named mappings over every subset of the parameter names plus an unknown name; '
+             'non-trivial = the method body ran' % ((3, 4) if tier == 'quick' else (4, 5)),
+        assumptions=ASSUME_COMMON + [
+            'Binding!Verdict / Expected transcribe CPython direct-call binding; every scenario cross-checks them against a '
+            'real direct call on a generated function with the effective signature (event Direct), a disagreement stops the check with exit 2',
+            'don\'t-care corners (DESIGN 3.3 / Appendix B): a named key equal to a positional-only parameter or to the '
+            'context parameter when **kw exists may be rejected or executed with the server context'],
+        exhaustive=True)
+
+
+
+def c10(tier, seed):
+    t = 'quick' if tier == 'quick' else 'thorough'
+    return dict(
+        stages=[Stage('asyncbatch', mc=('AsyncBatchMC', 'AsyncBatch_%s.cfg' % t), emit=('AsyncBatchMC', 'AsyncBatch_%s_emit.cfg' % t),
+                      driver='asyncbatch', trace=('AsyncBatchTrace', 'AsyncBatchTrace.cfg'), mc_workers=8,
+                      nontrivial=lambda tr: sum(1 for e in tr['ev'] if e['ev'] == 'Release') >= 2)],
+        rule='every release order (interleaving) of batches of %s elements, each with 0..2 suspension points placed in the '
+             'middleware (before/after the handler), the method or the error handler; element types: ok / failing / plain '
+             'function / notifications; concurrent and sequential mode.  The schedules are TLC\'s: each terminal state of '
+             'the model is one schedule, replayed on the real AsyncDispatcher with driver-owned futures; non-trivial = '
+             'a schedule with >= 2 releases' % ('3 (11 element types)' if tier == 'quick' else '4 (6 element types)'),
+        assumptions=ASSUME_COMMON + ['the asyncio loop is FIFO and a task runs until it awaits a pending future (CPython\'s '
+                                     'documented behaviour); the driver releases one future at a time and waits for quiescence'],
+        exhaustive=True)
+
+
+CHECKS = {'C04': c04, 'C10': c10, 'C01': c01, 'C02': c02, 'C03': c03, 'C05': c05, 'C06': c06, 'C12': c12}
